@@ -76,7 +76,7 @@ func shortPkg(p string) string {
 var directives = map[string]bool{"func": true, "property": true, "arith": true, "requires": true, "ensures": true,
 	"modifies": true, "may_panic": true, "nopanic": true, "loop": true, "pure": true, "trusted": true,
 	"isa": true, "lanes": true, "crosslane": true, "commutes": true, "assert-at": true, "iface": true,
-	"view": true, "lock": true, "note": true, "fp": true, "spec": true, "lemma": true, "assume-iface": true, "inline": true, "implements": true, "case": true, "extern": true, "assume-at": true}
+	"view": true, "lock": true, "note": true, "fp": true, "spec": true, "lemma": true, "assume-iface": true, "inline": true, "implements": true, "case": true, "extern": true, "assume-at": true, "opaque": true, "extern-here": true, "funcvalues": true}
 
 // parseContractFile reads one zz_contracts_verif.go (or .gspec) file.
 func parseContractFile(path, pkgPath string) ([]*Contract, []*SpecFn, error) {
@@ -119,7 +119,7 @@ func parseContractFile(path, pkgPath string) ([]*Contract, []*SpecFn, error) {
 	var cur *Contract
 	for _, rc := range clauses {
 		fail := func(e error) error { return fmt.Errorf("%s:%d: %v", path, rc.line, e) }
-		if rc.dir == "extern" {
+		if rc.dir == "extern" || rc.dir == "extern-here" {
 			// extern <interface method> :: reason -- a method of a component outside the verified code: assumed to leave
 			// the heap of the verified packages unchanged and to return an unconstrained value
 			parts := strings.SplitN(rc.text, "::", 2)
@@ -128,11 +128,24 @@ func parseContractFile(path, pkgPath string) ([]*Contract, []*SpecFn, error) {
 				return nil, nil, fail(fmt.Errorf("extern: name expected"))
 			}
 			sf := &SpecFn{Name: "extern:" + head[0], File: path, Line: rc.line}
+			if rc.dir == "extern-here" {
+				// the declaration holds only inside the function whose contract it is part of
+				if cur == nil {
+					return nil, nil, fail(fmt.Errorf("extern-here before any func"))
+				}
+				sf.Func = cur.FullName()
+			}
 			if len(head) > 1 && head[1] == "fresh" {
 				sf.Lemma = true // reused flag: reference results are freshly allocated
 			}
 			if len(head) > 1 && head[1] == "old" {
 				sf.PTypes = []string{"old"} // reference results denote objects that existed before the call
+			}
+			if len(head) > 1 && head[1] == "writes-args" {
+				sf.PTypes = []string{"writes-args"} // writes only the variables its pointer arguments point to
+			}
+			if len(head) > 1 && head[1] == "havoc" {
+				sf.PTypes = []string{"havoc"} // may write any memory reachable from its arguments: the whole heap is havocked
 			}
 			if len(head) > 1 && head[1] == "pure" {
 				sf.PTypes = []string{"pure"} // reused field: the result is a function of receiver and arguments
@@ -362,6 +375,7 @@ type SpecFn struct {
 	Body   *Expr
 	Lemma  bool
 	Reason string // extern declarations: why the method is outside the verified code
+	Func   string // extern-here: the function under contract the declaration is limited to
 	File   string
 	Line   int
 }
